@@ -50,6 +50,8 @@ void on_fatal_signal(int sig) {
 
 void on_watchdog(int) {
     save_current(g_hang_path);
+    static const char msg[] = "\n   why: CPU-time watchdog expired: the case used 20 s of CPU time without finishing (does not terminate)\n";
+    if (write(1, msg, sizeof msg - 1) < 0) { }
     _exit(77);
 }
 
@@ -172,7 +174,25 @@ bool argflag(int argc, char **argv, const char *name) {
 
 namespace verif {
 // used by enumerators to name the case being executed (for crash/hang files)
-void set_current(const uint8_t *d, size_t n) { g_cur_data = d; g_cur_size = n; }
+volatile unsigned long g_generation = 0;      // bumped by set_current: progress indicator for the enumerators' watchdog
+void set_current(const uint8_t *d, size_t n) { g_cur_data = d; g_cur_size = n; g_generation = g_generation + 1; }
+}
+
+namespace {
+// Enumerators: a periodic CPU-time tick (5 s); four consecutive ticks without a new set_current() = 20 s of CPU in one case.
+using verif::g_generation;
+unsigned long g_last_generation = 0; int g_stalls = 0;
+void on_enum_tick(int sig) {
+    if (g_generation == 0) return;                 // this enumerator does not announce its cases
+    if (g_generation != g_last_generation) { g_last_generation = g_generation; g_stalls = 0; return; }
+    if (++g_stalls >= 4) on_watchdog(sig);
+}
+void arm_enum_watchdog() {
+    signal(SIGVTALRM, on_enum_tick);
+    struct itimerval it; memset(&it, 0, sizeof it);
+    it.it_value.tv_sec = 5; it.it_interval.tv_sec = 5;
+    setitimer(ITIMER_VIRTUAL, &it, nullptr);
+}
 }
 
 int main(int argc, char **argv) {
@@ -232,8 +252,9 @@ int main(int argc, char **argv) {
         int nshards = atoi(argval(argc, argv, "--nshards", "1"));
         int tier = atoi(argval(argc, argv, "--tier", "0"));
         verif::EnumReport r;
-        arm_watchdog(0);
+        arm_enum_watchdog();
         long n = verif_enumerate(shard, nshards, tier, r);
+        arm_watchdog(0); signal(SIGVTALRM, on_watchdog);
         (void)n;
         S.evaluations = r.evaluations; S.nontrivial = r.nontrivial; S.excluded_known = r.excluded_known;
         S.samples = r.samples; S.exhausted = r.exhausted;
